@@ -7,6 +7,7 @@ CONSTANTS
   AllowRelate = FALSE
   AllowQueryX = FALSE
   AllowSweep = FALSE
+  AllowDeclare = FALSE
   CopyModes = {}
   UnregisteredModes = {}
   Hist = TRUE
